@@ -102,10 +102,13 @@ type K struct {
 	HoldGates bool
 	// BurstGates additionally offers releasing all parked gates in one step.
 	BurstGates bool
+	// FastAdvance skips the mutex census before every clock advance.
+	FastAdvance bool
 }
 
 // NewK builds a kernel handle. Must be called inside the bubble.
 func NewK(seed uint64, w, s *Tape, trace bool) *K {
+	seedTimerOrder(s)
 	return &K{
 		Seed: seed, W: w, S: s, MaxSteps: 20000,
 		violKeys: map[string]bool{},
@@ -317,6 +320,14 @@ func (k *K) RunUntil(done func() bool) {
 // this bubble is blocked on a mutex, because bubble time cannot advance then.
 func (k *K) Advance(d time.Duration) bool {
 	k.Quiesce()
+	if k.FastAdvance {
+		// no goroutine census: a world that sets this accepts that a goroutine stuck on a mutex
+		// whose holder sleeps would hang the clock (the worker's watchdog then ends the process)
+		k.Logf("advance %v", d)
+		time.Sleep(d)
+		k.Settle()
+		return true
+	}
 	if gs := k.MutexBlocked(); len(gs) > 0 {
 		k.Logf("advance refused: %d goroutines blocked on a mutex", len(gs))
 		return false
